@@ -1,5 +1,4 @@
-import QmcProofs.RvbHam
-import QmcProofs.RvbBalance
+import QmcProofs.RvbWeight
 import QmcProofs.KernelInvarianceCut
 
 /-!
@@ -7,9 +6,14 @@ import QmcProofs.KernelInvarianceCut
 
 * general part: `remK S r` (off-diagonal rates `r`, the remaining mass stays), `mixRate` (a finite
   mixture over proposals `R` whose probability `q (g a) R` is read off a conserved quantity `g`);
+* `MoveOK E N R c c'`: `c'` is an RVB move of the Good configuration `c` on the well-formed region `R`
+  and the sweep of `calculate_flip_prob` is abandoned neither on `c` nor on `c'`; symmetric
+  (`MoveOK.symm`: reverse move, Good and `RegionOK` are derived);
 * `rvbT E N eps R c c'`: probability of `c → c'` given that region `R` was proposed — the model's
   `transProb` (acceptance `min 1 (Π (W_aft/W_bef)^k · Π u_aft/u_bef)` × redraw probability of the
-  target assignment) of the abstraction `extract E c R`, on the pairs related by the move relation;
+  target assignment) of the abstraction `extract E c R`, on the pairs with `MoveOK`;
+* `rvbT_balance`: `π(c)·T_R(c,c') = π(c')·T_R(c',c)` for the SSE weight — from the extract-flip
+  lemma, the factorisation of the SSE weight through the abstraction, and `detailed_balance`;
 * `rvbK`: the kernel; `rvbK_reversible(_cut)`, `rvbK_rowSumOn`, `rvbK_invariant(_cut)`;
 * `ising_timestep_invariant_rvb(_cut)`: one `timestep` of the Ising sampler WITH the RVB update
   (`timestepWith … [restr S rvbK] …`) leaves the SSE measure invariant.
@@ -95,8 +99,35 @@ end General
 
 /-! ## the transition probability given the region -/
 
-/-- everything the balance identity of one region uses about the pair `c → c'` (all fields are
-consequences of `RvbMove E c c' R`, `Good c`, `Closed c R` and "no sweep abandoned": `guard_of_move`) -/
+/-- `c'` is an RVB move of the Good configuration `c` on the well-formed region `R`, and the sweep of
+`calculate_flip_prob` is abandoned (`mult < EPSILON`) neither on `c` nor on `c'` -/
+structure MoveOK (E : Ising) (N : Nat) (R : Region) (c c' : Config) : Prop where
+  move : RvbMove E c c' R
+  good : GoodN (isingHam E) N c
+  region : RegionOK E c R
+  nb : (rvbCodeMult E c R).2 = false
+  nb' : (rvbCodeMult E c' R).2 = false
+
+theorem MoveOK.good' {E : Ising} {N : Nat} {R : Region} {c c' : Config} (h : MoveOK E N R c c') :
+    GoodN (isingHam E) N c' := rvbMove_good h.move h.good
+
+/-- **the condition is symmetric**: the reverse move exists, the new configuration is Good, the
+region is well formed for it -/
+theorem MoveOK.symm {E : Ising} {N : Nat} {R : Region} {c c' : Config} (h : MoveOK E N R c c') :
+    MoveOK E N R c' c :=
+  ⟨rvbMove_reverse h.move h.good.2.2, h.good', regionOK_of_move h.move (opsOK_of_good h.good.2) h.region,
+    h.nb', h.nb⟩
+
+/-- the kernel does not leave the configuration space: every target of a transition from
+`cfgSpace H N L` lies in `cfgSpace H N L` (so the mass `remK` keeps at `c` is exactly the rejected mass) -/
+theorem MoveOK.mem_cfgSpace {E : Ising} {N L : Nat} {R : Region} {c c' : Config} (h : MoveOK E N R c c')
+    (hc : c ∈ cfgSpace (isingHam E) N L) : c' ∈ cfgSpace (isingHam E) N L := by
+  have h1 := good_mem_cfgSpace h.good'.2
+  obtain ⟨-, hl, -⟩ := Qmc.Kernel.mem_cfgSpace.1 hc
+  rw [h.good'.1, h.move.count.2, hl] at h1
+  exact h1
+
+/-- everything the balance identity of one region uses about the pair `c → c'` -/
 structure Guard (E : Ising) (N : Nat) (eps : Rat) (R : Region) (c c' : Config) : Prop where
   move : RvbMove E c c' R
   good : GoodN (isingHam E) N c
@@ -107,11 +138,23 @@ structure Guard (E : Ising) (N : Nat) (eps : Rat) (R : Region) (c c' : Config) :
   fact : ∃ ρ : Rat, opsW E c.slots = ρ * weight (extract E c R).1 (extract E c R).2.1 ∧
     opsW E c'.slots = ρ * weight (extract E c' R).1 (extract E c' R).2.1
 
+/-- **nothing observed is left**: the flipped abstraction (`extract_flip`), the shape, `Admissible`
+and the factorisation of the SSE weight are all derived from `MoveOK` -/
+theorem guard_of_moveOK {E : Ising} {N : Nat} {eps : Rat} {R : Region} {c c' : Config}
+    (hgam : 0 ≤ E.gamma) (hclose : CloseExact E eps) (h : MoveOK E N R c c') : Guard E N eps R c c' := by
+  have hok := opsOK_of_good h.good.2
+  have hfl := extract_flip h.move hok h.region.covered h.nb h.nb'
+  refine ⟨h.move, h.good, h.good', hfl.1, hfl.2, admissible_of_good h.good.2 h.region h.nb hgam hclose,
+    ⟨restW E R { st := c.state, mask := R.mask0, tog := R.toggles } 0 c.slots,
+      opsW_factor h.good.2 h.region h.nb, ?_⟩⟩
+  rw [restW_eq h.move hok h.region.covered]
+  exact opsW_factor h.good'.2 h.symm.region h.nb'
+
 open Classical in
 /-- probability of `c → c'` given that region `R` was proposed: the model's `transProb` (acceptance ×
-redraw of the target assignment) on the pairs related by the move relation in both directions -/
+redraw of the target assignment) of the abstraction extracted from `c`, on the pairs with `MoveOK` -/
 noncomputable def rvbT (E : Ising) (N : Nat) (eps : Rat) (R : Region) (c c' : Config) : Rat :=
-  if Guard E N eps R c c' ∧ Guard E N eps R c' c then
+  if MoveOK E N R c c' then
     transProb (extract E c R).1 (extract E c R).2.1 (extract E c' R).2.1 eps
   else 0
 
@@ -133,20 +176,29 @@ theorem guard_balance {E : Ising} {N : Nat} {eps : Rat} {R : Region} {c c' : Con
   rw [show ∀ K r W t : Rat, K * (r * W) * t = K * r * (W * t) from fun _ _ _ _ => by ring, DB]
   ring
 
-theorem rvbT_balance (E : Ising) (N : Nat) (eps : Rat) (R : Region) (β : Rat) (c c' : Config) :
+/-- `π(c)·T_R(c, c') = π(c')·T_R(c', c)` for the SSE weight `π = configWeight (isingHam E) β` -/
+theorem rvbT_balance (E : Ising) (N : Nat) (eps : Rat) (hgam : 0 ≤ E.gamma) (hclose : CloseExact E eps)
+    (R : Region) (β : Rat) (c c' : Config) :
     configWeight (isingHam E) β c * rvbT E N eps R c c' =
       configWeight (isingHam E) β c' * rvbT E N eps R c' c := by
   unfold rvbT
-  by_cases h : Guard E N eps R c c' ∧ Guard E N eps R c' c
-  · rw [if_pos h, if_pos ⟨h.2, h.1⟩]; exact guard_balance β h.1
-  · rw [if_neg h, if_neg (fun h' => h ⟨h'.2, h'.1⟩), mul_zero, mul_zero]
+  by_cases h : MoveOK E N R c c'
+  · rw [if_pos h, if_pos h.symm]; exact guard_balance β (guard_of_moveOK hgam hclose h)
+  · rw [if_neg h, if_neg (fun h' => h h'.symm), mul_zero, mul_zero]
 
 theorem rvbT_ne_zero {E : Ising} {N : Nat} {eps : Rat} {R : Region} {c c' : Config}
-    (h : rvbT E N eps R c c' ≠ 0) : Guard E N eps R c c' := by
+    (h : rvbT E N eps R c c' ≠ 0) : MoveOK E N R c c' := by
   unfold rvbT at h
-  by_cases hg : Guard E N eps R c c' ∧ Guard E N eps R c' c
-  · exact hg.1
+  by_cases hg : MoveOK E N R c c'
+  · exact hg
   · rw [if_neg hg] at h; exact absurd rfl h
+
+/-- on a pair with `MoveOK` the entry is the model's acceptance × redraw probability -/
+theorem rvbT_eq {E : Ising} {N : Nat} {eps : Rat} {R : Region} {c c' : Config} (h : MoveOK E N R c c') :
+    rvbT E N eps R c c' =
+      acceptProb (extract E c R).1 ((extract E c R).2.1.map List.length) eps *
+        redrawProb (extract E c R).1 (extract E c' R).2.1 := by
+  unfold rvbT; rw [if_pos h]; rfl
 
 /-! ## the kernel -/
 
@@ -159,10 +211,11 @@ noncomputable def rvbK (E : Ising) (N : Nat) (eps : Rat) (q : Skeleton → Regio
   remK S (mixRate (skeleton E) Rs q (rvbT E N eps))
 
 /-- **`rvbK` is in detailed balance with the SSE weight** -/
-theorem rvbK_reversible (E : Ising) (N : Nat) (eps : Rat) (q : Skeleton → Region → Rat) (Rs : List Region)
-    (S : Finset Config) (β : Rat) :
+theorem rvbK_reversible (E : Ising) (N : Nat) (eps : Rat) (hgam : 0 ≤ E.gamma) (hclose : CloseExact E eps)
+    (q : Skeleton → Region → Rat) (Rs : List Region) (S : Finset Config) (β : Rat) :
     Reversible (configWeight (isingHam E) β) (rvbK E N eps q Rs S) := by
-  refine remK_reversible S (mixRate_balance (skeleton E) Rs q _ (fun R _ a b => rvbT_balance E N eps R β a b) ?_)
+  refine remK_reversible S (mixRate_balance (skeleton E) Rs q _
+    (fun R _ a b => rvbT_balance E N eps hgam hclose R β a b) ?_)
   intro R _ a b h
   have g := rvbT_ne_zero h
   exact g.move.skeleton_eq (edgeOpsNotConst_of_good g.good.2)
@@ -172,10 +225,11 @@ theorem rvbK_rowSumOn (E : Ising) (N : Nat) (eps : Rat) (q : Skeleton → Region
   remK_rowSumOn S _
 
 /-- … and with the true SSE measure `configWeight · 1_{Good}` -/
-theorem rvbK_reversible_cut (E : Ising) (N : Nat) (eps : Rat) (q : Skeleton → Region → Rat)
-    (Rs : List Region) (S : Finset Config) (β : Rat) :
+theorem rvbK_reversible_cut (E : Ising) (N : Nat) (eps : Rat) (hgam : 0 ≤ E.gamma)
+    (hclose : CloseExact E eps) (q : Skeleton → Region → Rat) (Rs : List Region) (S : Finset Config)
+    (β : Rat) :
     Reversible (cutTo (GoodN (isingHam E) N) (configWeight (isingHam E) β)) (rvbK E N eps q Rs S) := by
-  refine cutTo_reversible _ (rvbK_reversible E N eps q Rs S β) (fun a b hk => ?_)
+  refine cutTo_reversible _ (rvbK_reversible E N eps hgam hclose q Rs S β) (fun a b hk => ?_)
   by_cases hab : b = a
   · subst hab; exact Iff.rfl
   · unfold rvbK remK at hk
@@ -184,15 +238,17 @@ theorem rvbK_reversible_cut (E : Ising) (N : Nat) (eps : Rat) (q : Skeleton → 
     have g := rvbT_ne_zero hR
     exact ⟨fun _ => g.good', fun _ => g.good⟩
 
-theorem rvbK_invariant (E : Ising) (N : Nat) (eps : Rat) (q : Skeleton → Region → Rat) (Rs : List Region)
-    (S : Finset Config) (β : Rat) :
+theorem rvbK_invariant (E : Ising) (N : Nat) (eps : Rat) (hgam : 0 ≤ E.gamma) (hclose : CloseExact E eps)
+    (q : Skeleton → Region → Rat) (Rs : List Region) (S : Finset Config) (β : Rat) :
     Invariant (sseOn (isingHam E) β S) (restr S (rvbK E N eps q Rs S)) :=
-  reversible_invariantOn (rvbK_reversible E N eps q Rs S β) (rvbK_rowSumOn E N eps q Rs S)
+  reversible_invariantOn (rvbK_reversible E N eps hgam hclose q Rs S β) (rvbK_rowSumOn E N eps q Rs S)
 
-theorem rvbK_invariant_cut (E : Ising) (N : Nat) (eps : Rat) (q : Skeleton → Region → Rat)
-    (Rs : List Region) (S : Finset Config) (hN : ∀ c ∈ S, c.state.length = N) (β : Rat) :
+theorem rvbK_invariant_cut (E : Ising) (N : Nat) (eps : Rat) (hgam : 0 ≤ E.gamma)
+    (hclose : CloseExact E eps) (q : Skeleton → Region → Rat) (Rs : List Region) (S : Finset Config)
+    (hN : ∀ c ∈ S, c.state.length = N) (β : Rat) :
     Invariant (sseCutOn (isingHam E) β S) (restr S (rvbK E N eps q Rs S)) :=
-  invariant_cut_of (isingHam E) β N hN (rvbK_reversible_cut E N eps q Rs S β) (rvbK_rowSumOn E N eps q Rs S)
+  invariant_cut_of (isingHam E) β N hN (rvbK_reversible_cut E N eps hgam hclose q Rs S β)
+    (rvbK_rowSumOn E N eps q Rs S)
 
 /-! ## one `timestep` with the RVB update enabled -/
 
@@ -218,9 +274,10 @@ enabled — Metropolis diagonal sweep ; RVB update (`rvbK`) ; flip of every flip
 the model's own cluster decomposition with probability ½ ; free-spin refresh — leaves the SSE
 weight invariant on the configuration space. Any graph (edges on two different variables), any
 couplings, Γ ≥ 0, any h, β > 0, any cutoff `L`, any proposal distribution that is a function of the
-skeleton, any finite list of regions, any `eps`. -/
+skeleton, any finite list of regions, any `eps` for which the "totals closer than eps" shortcut of
+`calculate_mult` is exact on the boundaries of `E` (`CloseExact`; trivially `eps = 0`). -/
 theorem ising_timestep_invariant_rvb (E : Ising) (L : Nat) (he : EdgesOK E) (hg : 0 ≤ E.gamma) (β : Rat)
-    (hβ : 0 < β) (eps : Rat) (q : Skeleton → Region → Rat) (Rs : List Region) :
+    (hβ : 0 < β) (eps : Rat) (hclose : CloseExact E eps) (q : Skeleton → Region → Rat) (Rs : List Region) :
     Invariant (sseOn (isingHam E) β (cfgSpace (isingHam E) E.nvars L))
       (timestepWith (sweepKM (isingHam E) β (cfgSpace (isingHam E) E.nvars L) L)
         [restr (cfgSpace (isingHam E) E.nvars L)
@@ -232,11 +289,12 @@ theorem ising_timestep_invariant_rvb (E : Ising) (L : Nat) (he : EdgesOK E) (hg 
     (sweep_invariant _ β hβ (isingClusterHam_nonneg _ _ _ _ hg) (cfgSpace_closed _ _ L) L) ?_
   intro K hK
   obtain rfl := List.eq_of_mem_singleton hK
-  exact rvbK_invariant E E.nvars eps q Rs _ β
+  exact rvbK_invariant E E.nvars eps hg hclose q Rs _ β
 
 /-- **the same for the true SSE measure** `configWeight · 1_{Consistent ∧ Legal}` -/
 theorem ising_timestep_invariant_rvb_cut (E : Ising) (L : Nat) (he : EdgesOK E) (hg : 0 ≤ E.gamma)
-    (β : Rat) (hβ : 0 < β) (eps : Rat) (q : Skeleton → Region → Rat) (Rs : List Region) :
+    (β : Rat) (hβ : 0 < β) (eps : Rat) (hclose : CloseExact E eps) (q : Skeleton → Region → Rat)
+    (Rs : List Region) :
     Invariant (sseCutOn (isingHam E) β (cfgSpace (isingHam E) E.nvars L))
       (timestepWith (sweepKM (isingHam E) β (cfgSpace (isingHam E) E.nvars L) L)
         [restr (cfgSpace (isingHam E) E.nvars L)
@@ -250,6 +308,26 @@ theorem ising_timestep_invariant_rvb_cut (E : Ising) (L : Nat) (he : EdgesOK E) 
       (cfgSpace_closed _ _ L) (cfgSpace_len _ _ L) L) ?_
   intro K hK
   obtain rfl := List.eq_of_mem_singleton hK
-  exact rvbK_invariant_cut E E.nvars eps q Rs _ (cfgSpace_len _ _ L) β
+  exact rvbK_invariant_cut E E.nvars eps hg hclose q Rs _ (cfgSpace_len _ _ L) β
+
+/-- the heat-bath variant of the diagonal update (`set_enable_heatbath(true)`, table `makeBondWeights`) -/
+theorem ising_timestep_invariant_rvb_cut_hb (E : Ising) (L : Nat) (he : EdgesOK E) (hg : 0 ≤ E.gamma)
+    (β : Rat) (hβ : 0 < β) (hW : 0 < (makeBondWeights (isingHam E)).sum) (eps : Rat)
+    (hclose : CloseExact E eps) (q : Skeleton → Region → Rat) (Rs : List Region) :
+    Invariant (sseCutOn (isingHam E) β (cfgSpace (isingHam E) E.nvars L))
+      (timestepWith
+        (sweepKHB (isingHam E) (makeBondWeights (isingHam E)) β (cfgSpace (isingHam E) E.nvars L) L)
+        [restr (cfgSpace (isingHam E) E.nvars L)
+          (rvbK E E.nvars eps q Rs (cfgSpace (isingHam E) E.nvars L))]
+        (ClusterFamily.ofComponents (isingFrozen (isingEdges E).length E.nvars) (isingHam E) E.nvars L
+          (isingHam_varsOK he)) E.nvars) := by
+  refine timestep_invariant_cut_with (isingHam E) β E.nvars (isingHam_varsOK he) _
+    (ofComponents_tagOK _ _ _ L _) (ising_clusterSym (isingEdges E) E.gamma E.h E.nvars E.nvars L)
+    (cfgSpace_closed _ _ L) (cfgSpace_len _ _ L) E.nvars _ _
+    (sweep_invariant_cut_hb _ _ β hβ hW (isingClusterHam_nonneg _ _ _ _ hg) (makeBondWeights_valid _)
+      (makeBondWeights_length _) E.nvars (isingHam_varsOK he) (cfgSpace_closed _ _ L) (cfgSpace_len _ _ L) L) ?_
+  intro K hK
+  obtain rfl := List.eq_of_mem_singleton hK
+  exact rvbK_invariant_cut E E.nvars eps hg hclose q Rs _ (cfgSpace_len _ _ L) β
 
 end Qmc.Rvb.Kernel
